@@ -120,6 +120,25 @@ func loadKnown(path string) ([]core.KnownFinding, error) {
 	return doc.Findings, nil
 }
 
+func loadExceptions(path string) (map[string]string, error) {
+	raw, err := os.ReadFile(path)
+	if os.IsNotExist(err) {
+		return nil, nil
+	}
+	if err != nil {
+		return nil, err
+	}
+	var list []core.Exception
+	if err := json.Unmarshal(raw, &list); err != nil {
+		return nil, err
+	}
+	out := map[string]string{}
+	for _, e := range list {
+		out[e.Key] = e.Reason
+	}
+	return out, nil
+}
+
 func runOne(id, tier string, seed int, repo, verifDir string, overlay map[string][]byte, known []core.KnownFinding, noEv bool, jsonOut string, verbose bool) (code int) {
 	start := time.Now()
 	rule := rules.Get(id)
@@ -154,6 +173,15 @@ func runOne(id, tier string, seed int, repo, verifDir string, overlay map[string
 		loadInfo = map[string]any{"patterns": pats, "root_packages": len(prog.Roots), "packages_loaded": len(prog.All), "consul_packages_loaded": nConsul}
 		rule.Run(&rules.Ctx{P: prog, R: rep, Tier: tier, VerifDir: verifDir})
 	}()
+	if ex, err := loadExceptions(filepath.Join(verifDir, "rules", "exceptions.json")); err != nil {
+		rep.Add(core.Obligation{Rule: id + ".load", Construct: "<exceptions>", Decision: core.Unresolved, Reason: err.Error()})
+	} else {
+		for _, k := range rep.ApplyExceptions(ex) {
+			// an exception whose construct no longer exists: loud, but not a property violation
+			rep.Notes = append(rep.Notes, "stale exception (no such obligation on this tree): "+k)
+			fmt.Printf("   note: stale exception %s\n", k)
+		}
+	}
 	rep.Finish()
 
 	// match known findings
